@@ -91,6 +91,7 @@ class Server:
         self.max_connections = max_connections
         self.conns = []
         self.log = log
+        self.on_sql_error = None  # callable(query, args, MySQLError): server-side (not injected) statement errors
         self.stats = {'lock_waits': 0, 'lock_timeouts': 0, 'statements': 0}
 
     async def lock(self, sess):
@@ -273,6 +274,8 @@ class Connection:
             if e.errno == 1213:
                 eng.rollback(sess)
             self._after(kind, holding)
+            if srv.on_sql_error is not None:
+                srv.on_sql_error(query, args, e)
             raise to_client_error(e) from None
         except BaseException:
             self._after(kind, holding)
